@@ -8,9 +8,6 @@ namespace Dltype.Prov
 theorem parser_is_the_modelled_source : Gen.Src.srcParser = [
   ("_span_to_tok", ["def(character)", "maybe_operator = _DLTypeOperator._value2member_map_.get(character)", "maybe_specifier = _DLTypeSpecifier._value2member_map_.get(character)", "maybe_group = _DLTypeGroupToken._value2member_map_.get(character)", "return maybe_operator or maybe_specifier or maybe_group"]),
   ("_span_to_str_or_int", ["def(span)", "if span.isnumeric():\n    return int(span)", "return span"]),
-  ("_postfix_from_infix", ["def(identifier, expression)", "if not expression:\n    msg = f'Argument list empty ({identifier})'\n    raise SyntaxError(msg)", "if (maybe_multiaxis := _maybe_multiaxis(identifier, expression)):\n    return maybe_multiaxis", "scope_vars = set()", "stack = []", "postfix = []", "current_index = 0", "while current_index < len(expression):\n    token = expression[current_index]\n    if isinstance(token, int):\n        postfix.append(token)\n        current_index += 1\n    elif token in _infix_operators:\n        current_op = token\n        _flush_op_by_precedence(stack, postfix, current_op)\n        stack.append(current_op)\n        current_index += 1\n    elif token in _functional_operators or token == _DLTypeGroupToken.LPAREN:\n        current_op = token\n        assert isinstance(current_op, _DLTypeGroupToken | _DLTypeOperator)\n        _flush_op_by_precedence(stack, postfix, current_op)\n        lparen, comma_indices, rparen = _get_group_indices(expression[current_index:], current_index)\n        if token in _binary_functions and len(comma_indices) != 1:\n            msg = f'{token.value} requires two arguments, received {len(comma_indices) + 1}'\n            raise SyntaxError(msg)\n        if token in _unary_functions and len(comma_indices) != 0:\n            msg = f'{token.value} requires one argument, received {len(comma_indices) + 1}'\n            raise SyntaxError(msg)\n        if token == _DLTypeGroupToken.LPAREN and len(comma_indices) != 0:\n            msg = 'Group received invalid comma separator'\n            raise SyntaxError(msg)\n        lhs = lparen\n        for arg_idx in [*comma_indices, rparen]:\n            inner_expr = _postfix_from_infix(f'{identifier}[{arg_idx}]', expression[lhs + 1:arg_idx])\n            postfix.extend(inner_expr.parsed_expression)\n            scope_vars.update((exp for exp in inner_expr.parsed_expression if isinstance(exp, str)))\n            lhs = arg_idx\n        if current_op in _functional_operators:\n            stack.append(current_op)\n        current_index = rparen + 1\n    elif isinstance(token, str) and _VALID_IDENTIFIER_RX.match(token):\n        postfix.append(token)\n        scope_vars.add(token)\n        current_index += 1\n    else:\n        msg = f'Invalid expression={identifier} [token={token!r}] pos={current_index}/{len(expression)}'\n        raise SyntaxError(msg)", "while stack:\n    postfix.append(stack.pop())", "return DLTypeDimensionExpression(identifier, postfix)"]),
-  ("_maybe_multiaxis", ["def(identifier, expression)", "if len(expression) == 1 and expression[0] == _DLTypeModifier.ANONYMOUS_MULTIAXIS.value:\n    return DLTypeDimensionExpression(identifier, [], is_anonymous=True)", "if len(expression) == 2 and expression[0] == _DLTypeOperator.MUL and isinstance(expression[1], str):\n    if not _VALID_IDENTIFIER_RX.match(expression[1]):\n        msg = f'{expression[1]} is not a valid multiaxis identifier'\n        raise SyntaxError(msg)\n    return DLTypeDimensionExpression(expression[1], [expression[1]], is_named_multiaxis=True)", "return None"]),
-  ("expression_from_string", ["def(expression)", "if not expression:\n    msg = f'Empty expression expression={expression!r}'\n    raise SyntaxError(msg)", "identifier = expression", "if _DLTypeSpecifier.EQUALS.value in expression:\n    identifier, expression = expression.split(_DLTypeSpecifier.EQUALS.value, maxsplit=1)", "tokenized = _tokenize_string_expr(expression)", "return _postfix_from_infix(identifier, tokenized)"]),
   ("DLTypeDimensionExpression.from_multiaxis_literal", ["def(cls, identifier, literal, *, is_anonymous=False) @classmethod", "return cls(identifier, [literal], is_multiaxis_literal=True, is_anonymous=is_anonymous)"]),
   ("@_VALID_IDENTIFIER_RX", ["re.compile('^[a-zA-Z][a-zA-Z0-9\\\\_]*$')"])] := by
   rfl
